@@ -49,6 +49,8 @@ Inductive c38_case :=
 
 Definition pair_eqb (a b : bytes * bytes) : bool := bytes_eqb (fst a) (fst b) && bytes_eqb (snd a) (snd b).
 
+Notation "x |> f" := (f x) (at level 70, only parsing).
+
 Definition c38_agree (c : c38_case) : bool :=
   match c with
   | Utf s o => Bool.eqb (utf8_valid s) o
@@ -67,9 +69,8 @@ Definition c38_agree (c : c38_case) : bool :=
   | Ts s oq orw o =>
       (* the quoted string differs from the raw one; the oracle answers by position *)
       outcome_eqb (option_eqb ts_eqb)
-        (if negb (nonempty s) then Ok None
-         else match oq with Some t => Ok (Some t) | None =>
-              match orw with Some t => Ok (Some t) | None => Err E_INVALID end end) o
+        (parse_timestamp (fun x => 0 :: x) (fun x => match x with 0 :: _ => oq | _ => orw end) (1 :: s)
+         |> fun r => if negb (nonempty s) then Ok None else r) o
   | Wrap s ok cls =>
       Nat.eqb cls (if negb (nonempty s) then 0 else if ok then 1 else 2)
   end.
